@@ -311,3 +311,25 @@ def fixture_conformance(fixture_dir):
                 assert geommap_entry(kind, (sh, row, col), fl) == "(%d:%d:%d:%d)" % (sh, x, y, fl), (fn, sh, x, y)
                 n += 1
     return n
+
+
+def link_into_store(fdata, decoy_meta_text=None):
+    """
+    moves a data file into <folder>/store/ (under the same name) and leaves a symbolic link in its place - the layout of content-addressed data stores;
+    an unrelated metadata file of the same stem can be put next to the link's TARGET: the recording's own .meta / .ch stay next to the link
+    """
+    import os
+    folder = os.path.dirname(fdata)
+    store = os.path.join(folder, "store")
+    os.makedirs(store, exist_ok=True)
+    tgt = os.path.join(store, os.path.basename(fdata))
+    if os.path.lexists(tgt):
+        os.unlink(tgt)
+    os.rename(fdata, tgt)
+    if os.path.lexists(fdata):
+        os.unlink(fdata)
+    os.symlink(tgt, fdata)
+    if decoy_meta_text is not None:
+        with open(os.path.splitext(tgt)[0] + ".meta", "w") as fh:
+            fh.write(decoy_meta_text)
+    return tgt
